@@ -1,3 +1,4 @@
+pub mod c15;
 pub mod screen_props;
 
 use crate::report::Report;
@@ -18,6 +19,7 @@ pub struct PropResult {
 pub fn run(id: &str, cfg: &RunCfg) -> Option<PropResult> {
     match id {
         "C01" | "C02" | "C03" | "C04" | "C19" => Some(screen_props::run(id, cfg)),
+        "C15" => Some(c15::run(cfg)),
         _ => None,
     }
 }
